@@ -27,25 +27,64 @@ func flat(v p2p.IOVec) []byte { return p2p.VecBytes(nil, v) }
 // muxDo applies the real mux function of kind k to channel token c.
 func muxDo(k, c string, p []byte) string {
 	return hx.Guard(func() string {
-		v := p2p.IOVec{p}
+		// the caller's vector: several segments and spare capacity (what append / make(IOVec, n, m) / a sub-slice
+		// give), still owned by the caller after the call
+		v, same := callerVec(p)
+		var out p2p.IOVec
 		switch k {
 		case "str":
-			return hx.Hex(flat(p2pmux.VerifStringMux(string(hx.UnHex(c)), v)))
+			out = p2pmux.VerifStringMux(string(hx.UnHex(c)), v)
 		case "varint":
 			n, _ := strconv.ParseUint(c, 10, 64)
-			return hx.Hex(flat(p2pmux.VerifVarintMux(n, v)))
+			out = p2pmux.VerifVarintMux(n, v)
 		case "u16":
 			n, _ := strconv.ParseUint(c, 10, 16)
-			return hx.Hex(flat(p2pmux.VerifUint16Mux(uint16(n), v)))
+			out = p2pmux.VerifUint16Mux(uint16(n), v)
 		case "u32":
 			n, _ := strconv.ParseUint(c, 10, 32)
-			return hx.Hex(flat(p2pmux.VerifUint32Mux(uint32(n), v)))
+			out = p2pmux.VerifUint32Mux(uint32(n), v)
 		case "u64":
 			n, _ := strconv.ParseUint(c, 10, 64)
-			return hx.Hex(flat(p2pmux.VerifUint64Mux(n, v)))
+			out = p2pmux.VerifUint64Mux(n, v)
+		default:
+			return "bad-kind"
 		}
-		return "bad-kind"
+		res := hx.Hex(flat(out))
+		if !same() {
+			res += " caller-vector-changed"
+		}
+		return res
 	})
+}
+
+// callerVec cuts p into 1-3 segments held in a vector with spare capacity; same reports whether the vector
+// (its length, the spare slots and every segment) is still what the caller built.
+func callerVec(p []byte) (p2p.IOVec, func() bool) {
+	k := 1 + len(p)%3
+	v := make(p2p.IOVec, 0, k+2)
+	var keep [][]byte
+	for i := 0; i < k; i++ {
+		seg := append([]byte{}, p[i*len(p)/k:(i+1)*len(p)/k]...)
+		v = append(v, seg)
+		keep = append(keep, append([]byte{}, seg...))
+	}
+	full := v[:cap(v)]
+	return v, func() bool {
+		if len(v) != k {
+			return false
+		}
+		for i := range keep {
+			if string(full[i]) != string(keep[i]) {
+				return false
+			}
+		}
+		for i := k; i < len(full); i++ {
+			if full[i] != nil {
+				return false
+			}
+		}
+		return true
+	}
 }
 
 func demuxDo(k string, frame []byte) string {
@@ -137,7 +176,7 @@ func muxStream(r *rand.Rand, n int, tier string, o *hx.Out) {
 		if frame == "fault" {
 			continue
 		}
-		fb := hx.UnHex(frame)
+		fb := hx.UnHex(strings.Fields(frame)[0])
 		if r.Intn(3) > 0 {
 			fb = mutateFrame(r, fb)
 		}
@@ -328,6 +367,10 @@ func muxOracle(r *rand.Rand, n int, tier string, infile string) (cases int, fail
 			fails = append(fails, fmt.Sprintf("mux panics: kind=%s chan=%s payload=%s", k, c, hx.Hex(p)))
 			return
 		}
+		if strings.HasSuffix(f, " caller-vector-changed") {
+			fails = append(fails, fmt.Sprintf("the %s multiplexer writes into the caller's vector (spare capacity): told segments are changed after the call, a second Tell of the same vector sends something else; chan=%s payload=%s", k, c, hx.Hex(p)))
+			f = strings.TrimSuffix(f, " caller-vector-changed")
+		}
 		want := "ok " + c + " " + hx.Hex(p)
 		if got := demuxDo(k, hx.UnHex(f)); got != want {
 			fails = append(fails, fmt.Sprintf("round trip: kind=%s chan=%s payload=%s frame=%s demux=%q", k, c, hx.Hex(p), f, got))
@@ -378,7 +421,7 @@ func muxOracle(r *rand.Rand, n int, tier string, infile string) (cases int, fail
 		c := randChan(r, k)
 		p := hx.Bytes(r, hx.SmallLen(r))
 		try(k, c, p)
-		tryFrame(k, mutateFrame(r, hx.UnHex(muxDo(k, c, p))))
+		tryFrame(k, mutateFrame(r, hx.UnHex(strings.Fields(muxDo(k, c, p) + " ")[0])))
 		if i%500 == 0 {
 			trySwarm(k, hx.Pick(r, 16, 64, 128, 300, 1200, 65536), c)
 		}
